@@ -12,6 +12,10 @@
 #include "../common.h"
 #include "layout_types.h"
 #include "layout_protos.h"
+#ifdef C13_LEXER
+#include "lex_types.h"
+#include "lex_protos.h"
+#endif
 
 #define RET __CPROVER_return_value
 #define POW2(a) ((a) != 0 && ((a) & ((a) - 1)) == 0)
@@ -35,4 +39,30 @@ size_t layout_size(const layout *self)
 __CPROVER_requires(__CPROVER_is_fresh(self, sizeof(layout)))
 __CPROVER_ensures(RET == self->m_size)
 __CPROVER_assigns();
+#ifdef C13_LEXER
+/* ---- lexer.ll: parse_esc_num ---------------------------------------------------------------
+ * Called by the scanner for  \[0-3][0-7]?[0-7]?  (ignore=1, base 8) and  \x HEX HEX  (ignore=2,
+ * base 16) with str = yytext and len = yyleng: exactly `len` readable bytes, no terminator
+ * guaranteed.  The regular expressions are the precondition.  Contract: no access outside
+ * [str, str+len), no error raised, and the value of the digits is returned as a byte. */
+#define OCT(c) ((c) >= '0' && (c) <= '7')
+#define HEXD(c) (((c) >= '0' && (c) <= '9') || ((c) >= 'a' && (c) <= 'f') || ((c) >= 'A' && (c) <= 'F'))
+#define HEXV(c) ((c) <= '9' ? (c) - '0' : (c) >= 'a' ? (c) - 'a' + 10 : (c) - 'A' + 10)
+#define ESC_PRE(str, len, ignore, base) \
+  (((base) == 8 && (ignore) == 1 && (len) >= 2 && (len) <= 4 && (str)[0] == '\\' && (str)[1] >= '0' && (str)[1] <= '3' && \
+    ((len) < 3 || OCT((str)[2])) && ((len) < 4 || OCT((str)[3]))) || \
+   ((base) == 16 && (ignore) == 2 && (len) == 4 && (str)[0] == '\\' && (str)[1] == 'x' && HEXD((str)[2]) && HEXD((str)[3])))
+#define ESC_VAL(str, len, base) ((base) == 16 ? HEXV((str)[2]) * 16 + HEXV((str)[3]) : \
+   (len) == 2 ? (str)[1] - '0' : (len) == 3 ? ((str)[1] - '0') * 8 + ((str)[2] - '0') : \
+   (((str)[1] - '0') * 8 + ((str)[2] - '0')) * 8 + ((str)[3] - '0'))
+
+extern const void *__CPROVER_alloca_object;
+char lex_parse_esc_num(const char *str, int len, int ignore, int base)
+__CPROVER_requires(len >= 2 && len <= 4 && __CPROVER_is_fresh(str, len))
+__CPROVER_requires(ESC_PRE(str, len, ignore, base) && verif_raised == 0)
+__CPROVER_ensures(verif_raised == 0)
+__CPROVER_ensures((unsigned char)RET == (unsigned char)ESC_VAL(str, len, base))
+/* __CPROVER_alloca_object: CBMC's own bookkeeping for the alloca'd buffer (the lowered VLA) */
+__CPROVER_assigns(verif_raised, __CPROVER_alloca_object);
+#endif
 #endif
